@@ -11,7 +11,7 @@ for mf in sorted(glob.glob(os.path.join(root, '*', 'meta.json'))):
     rows.append((m['id'], m['property'], (m.get('summary') or '').replace('|', '/').replace('\n', ' ')[:230], (m.get('needs') or '').replace('|', '/').replace('\n', ' ')[:200], det['status'] + ('' if m.get('first_evaluation', {}).get('status', 'caught') == 'caught' else ' (first evaluation: %s)' % m['first_evaluation']['status']), by, inc))
 with open(os.path.join(root, 'INDEX.md'), 'w') as fh:
     fh.write('# Seeded changes (written by independent sub-agents from the property text only; each confirmed in a scratch worktree)\n\n')
-    fh.write('%d changes; caught: %d, analysis-incomplete only (exit 2): %d, missed: %d\n\n' % (len(rows), sum(r[4].startswith('caught') for r in rows), sum(r[4].startswith('incomplete') for r in rows), sum(r[4] == 'missed' for r in rows)))
+    fh.write('%d changes; caught: %d, analysis-incomplete only (exit 2): %d, missed: %d\n\n' % (len(rows), sum(r[4].startswith('caught') for r in rows), sum(r[4].startswith('incomplete') for r in rows), sum(r[4].startswith('missed') for r in rows)))
     fh.write('| id | property | change | needs | status | reported by (check: rules) | other checks exit 2 |\n|---|---|---|---|---|---|---|\n')
     for r in rows:
         fh.write('| %s |\n' % ' | '.join(r))
